@@ -32,11 +32,14 @@ Verdict(i) ==
       R    == ToSet(e.inR)
       D    == ToSet(e.dels)
       U    == ToSet(e.ups)
-      env  == Env(s0)
+      env  == EnvInput(s0)
   IN
   \* "env" is not a verdict on the code: the harness fed an input outside the environment assumption
      F("env", env)
   \cup (IF ~env THEN {} ELSE
+       \* the hashes stored in the real objects separate the real contents (SetHash / HashConfigEntry)
+          F("hash-faithful", HashFaithful(L \cup R))
+     \cup
        \* the diff the real code returned is the one the step-wise walk produces (as sets, nothing twice)
           F("diff-walk", D = Rng(fin.dels) /\ U = Rng(fin.ups)
                          /\ Len(e.dels) = Cardinality(D) /\ Len(e.ups) = Cardinality(U))
